@@ -31,9 +31,13 @@ namespace OP2Utility::Stream
 	}
 
 	void FileReader::ReadImplementation(void* buffer, std::size_t size) {
+		auto originalPosition = file.tellg();
 		file.read(static_cast<char*>(buffer), size);
 		// Check stream flags for errors
 		if (!file) {
+			// Leave the stream usable and where it was: a failed read must not poison later operations
+			file.clear();
+			file.seekg(originalPosition);
 			throw std::runtime_error("Error reading from file");
 		}
 	}
@@ -41,7 +45,12 @@ namespace OP2Utility::Stream
 	std::size_t FileReader::ReadPartial(void* buffer, std::size_t size) noexcept {
 		file.read(static_cast<char*>(buffer), size);
 		// Note: number of unformatted bytes read, up to size, must fit within a size_t
-		return static_cast<std::size_t>(file.gcount());
+		auto bytesTransferred = static_cast<std::size_t>(file.gcount());
+		if (!file) {
+			// A short read at the end of the file sets eofbit and failbit; it is not an error here
+			file.clear();
+		}
+		return bytesTransferred;
 	}
 
 	uint64_t FileReader::Length() {
